@@ -35,6 +35,12 @@ pub enum VT {
     Int,
     Bool,
     Null,
+    /// reference to `Enu ::= ENUMERATED { x, y(7), z-z }`
+    Enum,
+    /// reference to `Nn ::= INTEGER { one(1), two(2) }`
+    Named,
+    /// reference to `Bs ::= BIT STRING { f0(0), f2(2) }`
+    Bits,
     /// (member type, OPTIONAL)
     Seq(Vec<(VT, bool)>),
     Cho(Vec<VT>),
@@ -47,6 +53,9 @@ impl VT {
             VT::Int => "i".into(),
             VT::Bool => "b".into(),
             VT::Null => "n".into(),
+            VT::Enum => "e".into(),
+            VT::Named => "N".into(),
+            VT::Bits => "B".into(),
             VT::Seq(ms) => format!("S({})", ms.iter().map(|(t, o)| format!("{}{}", t.label(), if *o { "?" } else { "" })).collect::<Vec<_>>().join(",")),
             VT::Cho(a) => format!("C({})", a.iter().map(|t| t.label()).collect::<Vec<_>>().join(",")),
             VT::Of(e) => format!("O({})", e.label()),
@@ -58,6 +67,9 @@ impl VT {
             VT::Int => return "INTEGER".into(),
             VT::Bool => return "BOOLEAN".into(),
             VT::Null => return "NULL".into(),
+            VT::Enum => return "Enu".into(),
+            VT::Named => return "Nn".into(),
+            VT::Bits => return "Bs".into(),
             VT::Seq(ms) => format!("SEQUENCE {{ {} }}", ms.iter().enumerate().map(|(i, (t, o))| format!("m{i} {}{}", t.text(named, defs, false), if *o { " OPTIONAL" } else { "" })).collect::<Vec<_>>().join(", ")),
             VT::Cho(a) => format!("CHOICE {{ {} }}", a.iter().enumerate().map(|(i, t)| format!("a{i} {}", t.text(named, defs, false))).collect::<Vec<_>>().join(", ")),
             VT::Of(e) => format!("SEQUENCE OF {}", e.text(named, defs, false)),
@@ -73,7 +85,10 @@ impl VT {
     /// (value notation, abstract value): every alternative / presence / length 0..2, one component varied at a time
     fn values(&self) -> Vec<(String, Val)> {
         match self {
-            VT::Int => vec![("5".into(), Val::Int("5".into())), ("-300".into(), Val::Int("-300".into()))],
+            VT::Int => vec![("5".into(), Val::Int("5".into())), ("-300".into(), Val::Int("-300".into())), ("six".into(), Val::Int("6".into()))],
+            VT::Enum => vec![("y".into(), Val::Enum("Enu::y".into())), ("z-z".into(), Val::Enum("Enu::z_z".into()))],
+            VT::Named => vec![("two".into(), Val::Int("2".into())), ("9".into(), Val::Int("9".into()))],
+            VT::Bits => vec![("{ f2 }".into(), Val::NamedBits(vec![false, false, true])), ("'11'B".into(), Val::Bits(vec![true, true]))],
             VT::Bool => vec![("TRUE".into(), Val::Bool(true)), ("FALSE".into(), Val::Bool(false))],
             VT::Null => vec![("NULL".into(), Val::Null)],
             VT::Seq(ms) => {
@@ -126,6 +141,9 @@ pub fn der_vt(v: &Val, t: &VT) -> Option<Vec<u8>> {
         (VT::Int, Val::Int(_)) => der_value(v, "INTEGER")?,
         (VT::Bool, Val::Bool(_)) => der_value(v, "BOOLEAN")?,
         (VT::Null, Val::Null) => der_value(v, "NULL")?,
+        (VT::Enum, Val::Enum(_)) => der_value(v, "Enu")?,
+        (VT::Named, Val::Int(_)) => der_value(v, "INTEGER")?,
+        (VT::Bits, Val::NamedBits(_)) | (VT::Bits, Val::Bits(_)) => der_value(v, "BIT STRING")?,
         (VT::Seq(ms), Val::Seq(vs)) if ms.len() == vs.len() => {
             let mut c = vec![];
             for (i, ((mt, opt), mv)) in ms.iter().zip(vs.iter()).enumerate() {
@@ -181,6 +199,8 @@ pub fn value_trees(thorough: bool) -> Vec<VT> {
         v
     };
     let mut out = build(&leaves, &leaves);
+    // leaves whose values are names (enumeral, named number, named bits): first member / alternative / element
+    out.extend(build(&vec![VT::Enum, VT::Named, VT::Bits], &vec![VT::Int]));
     let reps = vec![
         VT::Seq(vec![(VT::Int, false)]),
         VT::Seq(vec![(VT::Int, false), (VT::Bool, true)]),
@@ -1112,6 +1132,7 @@ impl Prop for C07 {
             for named in [true, false] {
                 let mut defs = vec![];
                 let top = t.text(named, &mut defs, true);
+                defs.insert(0, "six INTEGER ::= 6\nEnu ::= ENUMERATED { x, y(7), z-z }\nNn ::= INTEGER { one(1), two(2) }\nBs ::= BIT STRING { f0(0), f2(2) }".to_string());
                 defs.push(format!("Top ::= {top}"));
                 let prelude = defs.join("\n");
                 for (i, (text, val)) in t.values().into_iter().enumerate() {
